@@ -10,6 +10,11 @@ from lentil.radiometry import Spectrum
 from vlib import gen
 from vlib.runner import Skip, Violation, enum, expect_raises, hyp, lentil_call
 
+# the check's own calls are issued with keywords or positionally in the documented order (vlib/callforms.py)
+from vlib import callforms as _cf
+lentil = _cf.proxy(lentil)
+rad = _cf.proxy(rad, "radiometry.")
+
 RULE = ("complete enumeration of ordered triples of wavelength-unit names (incl. long aliases) and of flux units; "
         "drawn wavelengths (1e-8..1e-2 m), fluxes and temperatures (50..50 000 K) for Spectrum.to, Planck radiance / "
         "exitance and Vega fluxes in every (wavelength unit, flux unit) pair; non-trivial = the units involved are "
